@@ -5,3 +5,4 @@
 import Qvnt.Lemmas.GenMeas.quant_measure_mask_eq
 import Qvnt.Lemmas.GenMeas.quant_measure_eq
 import Qvnt.Lemmas.GenMeas.quant_reset_by_mask_eq
+import Qvnt.Lemmas.GenMeas.quant_measure_mask_weights_eq
